@@ -773,6 +773,11 @@ func TestC14(t *testing.T) {
 		"statement-granular sequentially consistent interleavings only",
 		"inadmissible pairs (application-level deadlock in the two-process FIFO reference model) are filtered, not judged")
 	if ev.ReplayFile() != "" {
+		var tk c14TypedCase
+		if _, err := ev.LoadReplay(&tk); err == nil && tk.Typed {
+			Bubble(t, func() { c14TypedCheck(c, tk) })
+			return
+		}
 		var k c14Case
 		if _, err := ev.LoadReplay(&k); err != nil {
 			t.Fatal(err)
@@ -792,6 +797,7 @@ func TestC14(t *testing.T) {
 		c.Bound("max_client_program_length", 4)
 		c.Bound("handler_programs", len(c14Handlers(false)))
 	}
+	c14Typed(t, c)
 	cases := c14Cases(thorough)
 	for i, k := range cases {
 		if !ev.Mine(i) {
